@@ -102,13 +102,36 @@ func SetRandom(f func() string) { randomFn = f }
 
 // Random returns the next harness-chosen random string, ok=false when no
 // supplier is installed (the real os.nextRandom is then used).
+//
+//go:norace
 func Random() (string, bool) {
+	if seqRandom {
+		// every value is handed out twice in a row: two callers collide on the
+		// first try and must retry. Shared plain counter, touched only by the
+		// thread holding the baton.
+		v := seqRandomN / 2
+		seqRandomN++
+
+		return string(rune('0' + v%10)), true
+	}
+
 	if randomFn == nil {
 		return "", false
 	}
 
 	return randomFn(), true
 }
+
+var (
+	seqRandom  bool
+	seqRandomN int
+)
+
+// SetSeqRandom installs the colliding counter-based supplier (0,0,1,1,2,2,...)
+// and resets it.
+//
+//go:norace
+func SetSeqRandom(on bool) { seqRandom, seqRandomN = on, 0 }
 
 // ----------------------------------------------------------------------------
 // Mutex shims.
